@@ -288,6 +288,54 @@ pub fn run(tier: Tier) -> i32 {
             }
         }
     }
+    // a location that accepts the beginning of a file and then no more (quota, full disk, file
+    // size limit): whatever the limit, a writer that returns Ok has left a file that decodes to
+    // exactly the image (each write in a child process under RLIMIT_FSIZE, SIGXFSZ ignored)
+    let n_limited = AtomicU64::new(0);
+    let n_limited_refused = AtomicU64::new(0);
+    {
+        let exe = std::env::current_exe().unwrap_or_else(|e| machinery_fail(&format!("current_exe: {}", e)));
+        let limits: Vec<u64> = if tier.thorough() { vec![0, 1, 10, 43, 44, 45, 100, 511, 512, 513, 1024, 4095, 4096, 4097, 8191, 8192, 8193, 16384, 100_000, 1 << 22] } else { vec![0, 1, 44, 512, 4096, 8192, 8193, 1 << 22] };
+        let mut lw: Vec<(bool, usize, u64)> = vec![];
+        for wc in [true, false] {
+            for len in [16usize, 700, 4000, 20000] {
+                for l in limits.iter() {
+                    lw.push((wc, len, *l));
+                }
+            }
+        }
+        let results: Vec<(bool, usize, u64, String)> = lw
+            .par_iter()
+            .enumerate()
+            .map(|(i, (wc, len, l))| {
+                let out = std::process::Command::new(&exe)
+                    .arg("worker07lim")
+                    .arg(&scratch.path)
+                    .arg((30_000_000 + i).to_string())
+                    .arg(if *wc { "1" } else { "0" })
+                    .arg(len.to_string())
+                    .arg(l.to_string())
+                    .stderr(std::process::Stdio::null())
+                    .output()
+                    .unwrap_or_else(|e| machinery_fail(&format!("cannot spawn worker07lim: {}", e)));
+                let line = String::from_utf8_lossy(&out.stdout).lines().last().unwrap_or("").to_string();
+                let line = if line.is_empty() { format!("writer-died\tthe process writing under a file size limit ended with {} and no verdict", out.status) } else { line };
+                (*wc, *len, *l, line)
+            })
+            .collect();
+        for (wc, len, l, line) in results {
+            n_limited.fetch_add(1, Ordering::Relaxed);
+            evals.fetch_add(1, Ordering::Relaxed);
+            if line == "refused" {
+                n_limited_refused.fetch_add(1, Ordering::Relaxed);
+            } else if line != "ok" {
+                let (k, d) = line.split_once('\t').unwrap_or(("unreadable-verdict", line.as_str()));
+                let w = if wc { "code" } else { "eeprom" };
+                rep.violation(&format!("C07/{}/writer={}/under-a-file-size-limit", k, w), || format!("write_{}_hex of a {}-byte image under a file size limit of {} bytes: {}", w, len, l, d), || json!({"kind": "hex", "writer": w, "len": len, "pattern": 0, "other_len": 0, "file_size_limit": l, "how": "RLIMIT_FSIZE soft limit, SIGXFSZ ignored (sh: trap '' XFSZ; ulimit -f)", "observed": d}));
+            }
+        }
+    }
+    rep.guard(n_limited_refused.load(Ordering::Relaxed) > 10 && n_limited.load(Ordering::Relaxed) > n_limited_refused.load(Ordering::Relaxed), "writes under a file size limit need both outcomes (limit hit / not hit)");
     let distinct_lengths: BTreeSet<usize> = lens.iter().map(|x| x.0).collect();
     rep.guard(distinct_lengths.len() > 650, "fewer than 650 distinct lengths");
     rep.sample(|| json!({"writer": "code", "len": 44, "pattern": "position hash", "other_image_len": 0}));
@@ -306,6 +354,8 @@ pub fn run(tier: Tier) -> i32 {
         "rewrites_of_a_path_holding_a_longer_file": n_pre.load(Ordering::Relaxed),
         "pairs_of_results_of_one_shape": n_pairs_same_shape.load(Ordering::Relaxed),
         "writes_right_after_a_failed_write": n_after_fail.load(Ordering::Relaxed),
+        "writes_under_a_file_size_limit": n_limited.load(Ordering::Relaxed),
+        "writes_under_a_file_size_limit_refused": n_limited_refused.load(Ordering::Relaxed),
         "default_device_boundaries_x64K": big_ks,
         "largest_length": largest_flash_bytes,
         "caps_hit": [],
@@ -333,6 +383,49 @@ pub fn worker_main(args: &[String]) -> i32 {
         None => println!("ok"),
         Some((k, d)) => println!("{}\t{}", k, d.replace('\n', " ")),
     }
+    0
+}
+
+/// `vcheck worker07lim <dir> <id> <writer_code> <len> <limit>`: one write under a file size limit
+/// of `limit` bytes (SIGXFSZ ignored: the write beyond the limit is cut short or refused), in a
+/// process of its own; prints `ok`, `refused` or `<kind>\t<detail>`
+pub fn worker_lim_main(args: &[String]) -> i32 {
+    let dir = std::path::PathBuf::from(&args[2]);
+    let id: usize = args[3].parse().unwrap_or(0);
+    let writer_code = args[4] == "1";
+    let len: usize = args[5].parse().unwrap_or(0);
+    let limit: u64 = args[6].parse().unwrap_or(0);
+    let image = pattern(0, len);
+    let b = if writer_code { built(image.clone(), vec![]) } else { built(vec![], image.clone()) };
+    let path = dir.join(format!("lim{}.hex", id));
+    let mut old = libc::rlimit { rlim_cur: 0, rlim_max: 0 };
+    unsafe {
+        let mem = libc::rlimit { rlim_cur: 2 << 30, rlim_max: 2 << 30 };
+        libc::setrlimit(libc::RLIMIT_AS, &mem);
+        libc::signal(libc::SIGXFSZ, libc::SIG_IGN);
+        libc::getrlimit(libc::RLIMIT_FSIZE, &mut old);
+        let lim = libc::rlimit { rlim_cur: limit, rlim_max: old.rlim_max };
+        libc::setrlimit(libc::RLIMIT_FSIZE, &lim);
+    }
+    let r = if writer_code { sut::write_code_hex(path.clone(), &b) } else { sut::write_eeprom_hex(path.clone(), &b) };
+    unsafe {
+        libc::setrlimit(libc::RLIMIT_FSIZE, &old);
+    }
+    let verdict = match r {
+        Err(_) => "refused".to_string(),
+        Ok(()) => match std::fs::read(&path) {
+            Err(e) => format!("no-file\tthe writer reported success but the file cannot be read: {}", e),
+            Ok(text) => match ihex::decode(&text) {
+                Err(e) => format!("truncated-file-reported-as-written\tthe writer returned Ok, but the file ({} bytes of text) is not a complete Intel HEX file: {}", text.len(), e.replace('\n', " ")),
+                Ok(d) => match ihex::compare(&d, &image) {
+                    Some(e) => format!("wrong-content\tthe writer returned Ok, but {}", e.replace('\n', " ")),
+                    None => "ok".to_string(),
+                },
+            },
+        },
+    };
+    let _ = std::fs::remove_file(&path);
+    println!("{}", verdict);
     0
 }
 
